@@ -43,7 +43,11 @@ func yamlExtras(y string, variant int) string {
 	if !strings.HasPrefix(y, "patterns:\n") {
 		return y
 	}
-	switch variant % 4 {
+	switch variant % 8 {
+	case 5:
+		// every pattern names its platforms a second time with another capitalisation and other values: such keys are
+		// not the ones the tool reads
+		return strings.NewReplacer("    unix: |\n", "    Unix: DECOYUPPER\n    UNIX: |\n      DECOYCAPS\n    unix: |\n", "    windows: |\n", "    Windows: DECOYUPPER\n    windows: |\n").Replace(y)
 	case 1:
 		return "# configuration of the toolchain\nversion: 2\n" + y
 	case 2:
